@@ -446,11 +446,13 @@ def same_volume(a, b):
     return (a.array.shape == b.array.shape and np.array_equal(a.array, b.array) and np.array_equal(a.affine, b.affine))
 
 
-def repeated_reads(ctx, descr, obj, get_volume, kw, first, r, site):
+def repeated_reads(ctx, descr, obj, get_volume, kw, first, r, site, late=None):
     """Several calls on ONE object: the same read again, after a refused call, after the cached pixel array was
     populated, after a read with other options; nothing may change and the object must stay untouched."""
     snap = _snapshot(obj)
     steps = ['again', 'after-refused', 'after-pixel_array', 'after-other-options', 'after-result-overwritten']
+    if late is not None:
+        steps.append('after-late-refusal')
     r.shuffle(steps)
     for step in steps:
         if step == 'after-refused':
@@ -458,6 +460,8 @@ def repeated_reads(ctx, descr, obj, get_volume, kw, first, r, site):
             _fetch(get_volume, row_start=10 ** 6, **kw)
         elif step == 'after-pixel_array':
             _fetch(lambda: obj.pixel_array)
+        elif step == 'after-late-refusal':
+            late()
         elif step == 'after-result-overwritten':
             # what a read returned belongs to the caller: overwriting it (array, affine, the reported geometry's affine) must
             # not reach into the object
@@ -484,6 +488,30 @@ def repeated_reads(ctx, descr, obj, get_volume, kw, first, r, site):
             ctx.fail(dict(descr, repeat=step), f'the same read returns another volume {step}', site=site + '/repeat')
     if _snapshot(obj) != snap:
         ctx.fail(descr, 'reading volumes modified the object (PixelData / functional groups changed)', site=site + '/repeat')
+
+
+def late_refused_read(ctx, descr, get_volume, seg_type, nseg, overlap, n_slices, rv, base_kw):
+    """Round 6, history dimension: a read that passes the checks of its arguments but is refused LATE (while the frames of the
+    requested slices are already being looked up): combining overlapping segments, an output dtype that cannot hold the values,
+    an integer dtype for rescaled fractions -- asked for a slice range of its own.  The object must be as before: the next read
+    of ANOTHER slice range must return only voxels that lie where it says.  Returns the kind of refusal provoked (or None)."""
+    if n_slices < 2:
+        return None
+    if overlap:
+        kw, kind = dict(combine_segments=True), 'combine-overlapping'
+    elif seg_type == 'FRACTIONAL':
+        kw, kind = dict(dtype=np.uint8), 'integer-dtype-for-fractions'
+    elif nseg >= 2:
+        kw, kind = dict(combine_segments=True, dtype=np.bool_), 'dtype-too-small'
+    else:
+        return None
+    lo = rv.randint(1, n_slices)                       # one-based slice numbers, a range that differs from the following read
+    hi = rv.randint(lo, n_slices)
+    rng_kw = rv.choice([dict(slice_start=lo), dict(slice_start=lo, slice_end=hi + 1), dict(slice_end=hi + 1),
+                        dict(slice_start=lo - 1, as_indices=True)])
+    st, v = _fetch(get_volume, **kw, **rng_kw)
+    ctx.case(stream=descr['stream'] + '/history', history='late-refused:' + kind, outcome='refused' if st != 'ok' else 'ok')
+    return kind
 
 
 SEG_ENTRIES = ['segread', 'Segmentation.from_dataset', 'imread', 'Image.from_dataset']
@@ -1000,7 +1028,7 @@ def _guard(ctx, descr, fn, *a):
 
 
 def run_vol(ctx, reqs, pending):
-    n_cases = ctx.n(230, 4000)
+    n_cases = ctx.n(230, 2400)
     for idx in range(n_cases):
         descr, g, arr, mk = build_vol_case(ctx, idx)
         _guard(ctx, descr, check_vol_case, ctx, descr, g, arr, mk, reqs, pending)
@@ -1116,13 +1144,18 @@ def check_vol_case(ctx, descr, g, arr, mk, reqs, pending):
                         assemble_check(seg, frames, v.array, seg_type) if label == 'combined' else None)
     # ---- several reads on the one object, and the object after a bytes round trip
     rv = ctx.rng(descr['stream'] + 'var2', descr['idx'])
+    late = None
     if full is not None:
-        repeated_reads(ctx, descr, seg, seg.get_volume, full_kw, full, rv, 'get_volume')
+        rl = ctx.rng(descr['stream'] + 'late', descr['idx'])
+        late = lambda: late_refused_read(ctx, descr, seg.get_volume, seg_type, nseg, overlap, full.spatial_shape[0], rl, full_kw)  # noqa: E731
+        repeated_reads(ctx, descr, seg, seg.get_volume, full_kw, full, rv, 'get_volume', late=late)
     roundtrip_seg_checks(ctx, descr, seg, rv, planes_lab, planes_cha, overlap, rowcos, colcos, ps, exact, seg_type, geom, 'get_volume',
                          frames_full=frames_full)
     # ---- sub-volumes of this object
     if full is not None:
         for j in range(3):
+            if rl.random() < 0.6:
+                late()                                  # a late-refused read of another slice range right before this one
             req0 = rand_request(r, full.spatial_shape)
             req, spelled = spell_request(rv, req0)
             ctx.hist('request_spelling', spelled)
@@ -1218,7 +1251,7 @@ def build_place_case(ctx, idx):
 
 
 def run_place(ctx, reqs, pending):
-    for idx in range(ctx.n(110, 1500)):
+    for idx in range(ctx.n(110, 900)):
         descr, g, arr, mk = build_place_case(ctx, idx)
         _guard(ctx, descr, check_vol_case, ctx, descr, g, arr, mk, reqs, pending)
 
@@ -1304,7 +1337,7 @@ def build_src_case(ctx, idx):
 
 
 def run_src(ctx, reqs, pending):
-    for idx in range(ctx.n(150, 2500)):
+    for idx in range(ctx.n(150, 1500)):
         descr, geo, arr, mk, src = build_src_case(ctx, idx)
         _guard(ctx, descr, check_src_case, ctx, descr, geo, arr, mk, src, reqs, pending)
 
@@ -1404,14 +1437,19 @@ def check_src_case(ctx, descr, geo, arr, mk, src, reqs, pending):
                             dict(descr, read=label, what='get_volume affine/shape/placement', layer='L0'), impl_volume_obs(stv, v),
                             assemble_check(seg, frames, v.array, seg_type) if label == 'combined' else None)
     rv = ctx.rng('srcvar2', descr['idx'])
+    late = None
     if full is not None:
-        repeated_reads(ctx, descr, seg, seg.get_volume, full_kw, full, rv, 'get_volume')
+        rl = ctx.rng('srclate', descr['idx'])
+        late = lambda: late_refused_read(ctx, descr, seg.get_volume, seg_type, nseg, overlap, full.spatial_shape[0], rl, full_kw)  # noqa: E731
+        repeated_reads(ctx, descr, seg, seg.get_volume, full_kw, full, rv, 'get_volume', late=late)
     if not may_refuse:
         roundtrip_seg_checks(ctx, descr, seg, rv, [(positions[k], lab[k]) for k in range(descr['n'])],
                              [(positions[k], cha[k]) for k in range(descr['n'])], overlap, rowcos, colcos, ps, exact, seg_type,
                              geom, 'get_volume', frames_full=frames_full)
     if full is not None:
         for j in range(2):
+            if rl.random() < 0.6:
+                late()
             req0 = rand_request(r, full.spatial_shape)
             req, spelled = spell_request(rv, req0)
             ctx.hist('request_spelling', spelled)
@@ -1549,7 +1587,7 @@ def build_img_case(ctx, idx):
 
 
 def run_img(ctx, reqs, pending):
-    for idx in range(ctx.n(170, 2000)):
+    for idx in range(ctx.n(170, 1200)):
         descr, geo, shape, mk = build_img_case(ctx, idx)
         _guard(ctx, descr, check_img_case, ctx, descr, geo, shape, mk, reqs, pending)
 
@@ -1743,7 +1781,7 @@ def build_tiled_case(ctx, idx):
 
 
 def run_tiled(ctx, reqs, pending):
-    for idx in range(ctx.n(150, 2000)):
+    for idx in range(ctx.n(150, 1200)):
         descr, geo, mask, mk = build_tiled_case(ctx, idx)
         _guard(ctx, descr, check_tiled_case, ctx, descr, geo, mask, mk, reqs, pending)
 
@@ -1977,7 +2015,7 @@ def build_tiledpos_case(ctx, idx):
 
 
 def run_tiledpos(ctx, reqs, pending):
-    for idx in range(ctx.n(110, 1500)):
+    for idx in range(ctx.n(110, 900)):
         descr, geo, mask, mk = build_tiledpos_case(ctx, idx)
         _guard(ctx, descr, check_tiled_case, ctx, descr, geo, mask, mk, reqs, pending)
 
@@ -2062,7 +2100,7 @@ def build_pyr_case(ctx, idx):
 
 
 def run_pyr(ctx, reqs, pending):
-    for idx in range(ctx.n(60, 600)):
+    for idx in range(ctx.n(60, 360)):
         descr, ps, mk = build_pyr_case(ctx, idx)
         _guard(ctx, descr, check_pyr_case, ctx, descr, ps, mk, reqs, pending)
 
